@@ -89,26 +89,30 @@ class Ctx:
         shutil.rmtree(self.scratch, ignore_errors=True)
 
     # ---------------------------------------------------------------- Lean side
-    def lean_check(self, spec_module, extra_modules=()):
-        """re-elaborate the Spec module, audit axioms; returns True if every obligation is discharged"""
+    def lean_check(self, spec_modules, extra_modules=()):
+        """re-elaborate the Spec module(s), audit axioms; returns True if every obligation is discharged"""
+        if isinstance(spec_modules, str):
+            spec_modules = [spec_modules]
         with Lock("lean"):
-            rel = spec_module.replace(".", "/")
-            for ext in (".olean", ".ilean"):
-                try:
-                    os.remove(os.path.join(LEAN, ".lake/build/lib/lean", rel + ext))
-                except OSError:
-                    pass
-            rc, out = sh(["lake", "build", spec_module, "Bng.Audit", "bngdrv"] + list(extra_modules), cwd=LEAN)
+            for spec_module in spec_modules:
+                rel = spec_module.replace(".", "/")
+                for ext in (".olean", ".ilean"):
+                    try:
+                        os.remove(os.path.join(LEAN, ".lake/build/lib/lean", rel + ext))
+                    except OSError:
+                        pass
+            rc, out = sh(["lake", "build", "Bng.Audit", "bngdrv"] + list(spec_modules) + list(extra_modules), cwd=LEAN)
             if rc != 0:
                 errs = [l for l in out.splitlines() if l.startswith("error")]
                 self.proof["errors"] += errs[:20] or [out[-2000:]]
-                self.broken.append(("proof", "lake build %s failed: %s" % (spec_module, "; ".join(errs[:3]))))
+                self.broken.append(("proof", "lake build %s failed: %s" % (" ".join(spec_modules), "; ".join(errs[:3]))))
                 # the driver may still be buildable: try it alone so that the search can run
                 sh(["lake", "build", "bngdrv"], cwd=LEAN)
                 return False
             audit = os.path.join(self.scratch, "audit.lean")
             with open(audit, "w") as f:
-                f.write("import %s\nimport Bng.Audit\n#audit_module %s\n" % (spec_module, spec_module))
+                f.write("".join("import %s\n" % m for m in spec_modules) + "import Bng.Audit\n" +
+                        "".join("#audit_module %s\n" % m for m in spec_modules))
             rc, out = sh(["lake", "env", "lean", audit], cwd=LEAN)
         ok = rc == 0
         for line in out.splitlines():
@@ -141,15 +145,17 @@ class Ctx:
                         self.broken.append(("proof", "forbidden construct in %s:%d: %s" % (p, n, l.strip())))
         if self.proof["obligations"] == 0:
             ok = False
-            self.broken.append(("proof", "no theorem found in " + spec_module))
+            self.broken.append(("proof", "no theorem found in " + " ".join(spec_modules)))
         return ok
 
-    def leanchecker(self, spec_module):
+    def leanchecker(self, spec_modules):
+        if isinstance(spec_modules, str):
+            spec_modules = [spec_modules]
         with Lock("lean"):
-            rc, out = sh(["lake", "env", "leanchecker", spec_module], cwd=LEAN)
+            rc, out = sh(["lake", "env", "leanchecker"] + list(spec_modules), cwd=LEAN)
         if rc != 0:
-            self.broken.append(("proof", "leanchecker rejected %s: %s" % (spec_module, out[-500:])))
-        self.notes.append("leanchecker %s rc=%d" % (spec_module, rc))
+            self.broken.append(("proof", "leanchecker rejected %s: %s" % (spec_modules, out[-500:])))
+        self.notes.append("leanchecker %s rc=%d" % (" ".join(spec_modules), rc))
         return rc == 0
 
     # ---------------------------------------------------------------- implementation side
@@ -512,7 +518,8 @@ def standard_check(prop, spec_module, comps, level_text, assumptions, tier, seed
 
         judge(ctx, comps, results, escalate)
         return finish(ctx, level_text, assumptions,
-                      "cd /verif/lean && lake build %s && lake env lean <audit: #audit_module %s>" % (spec_module, spec_module))
+                      "cd /verif/lean && lake build %s && lake env lean <file with: #audit_module <each Spec module>>" % (
+                          spec_module if isinstance(spec_module, str) else " ".join(spec_module)))
     except Exception:
         ctx.cleanup()
         raise
